@@ -12,6 +12,7 @@
                    applied to this copy): a wrong gradient makes the descent fit worse than its uniform start
   feasibility-form   the quantity LocalInference compares with its fixed threshold is, in every oracle class, the plain mean over
                    overlapping region pairs of the L1 gap between their marginals on the shared attributes (same unit in all siblings)
+  region-structure   the parent/child edges of the region graph are the covering relation of the regions under inclusion
   returns-own-iterate   estimation stores the (parameters, marginals) the inner loop returned
   per-call-options   a key written into a parameter with a shared mutable default (`options={}`) is written on every path before the
                    container is handed on: otherwise the value an earlier call stored (its callback) is used by this one
@@ -55,7 +56,13 @@ def run(ctx):
 
     check_grouping(ctx, setup)
     check_gbp_schedule(ctx)
-    from ._generic import measurement_keys_kept
+    from ._generic import measurement_keys_kept, covering_relation
+    bg_ = repo.func('src/mbi/region_graph.py', 'RegionGraph.build_graph')
+    for n_ in ast.walk(bg_.node):
+        for ch_ in ast.iter_child_nodes(n_):
+            ch_._parent = n_
+    ctx.analysed(bg_)
+    ctx.floor('covering relation of the region graph', covering_relation(ctx, bg_, 'region-structure'), 1)
     for name_, m_ in sorted(repo.methods(LI, 'LocalInference').items()):
         measurement_keys_kept(ctx, m_, 'projection-order')
 
